@@ -33,9 +33,11 @@ LEVEL_TEXT = ("Seeded exploration over directory trees mixing convertible and un
               "control. One tool runs in-process per tree; the whole sandbox is snapshotted before "
               "and after: inputs byte-identical, writes confined to the output location, every output "
               "loads (strict reader / rdflib) with the content of its source, the CLI tools survive "
-              "any mixture, produce an output for every convertible file and none for an unconvertible one.")
-LEVEL_NOTE = ("1.0 sources are written by the harness' own templates and kept to the trivially mappable "
-              "subset (one value element per Property); files carry no repository/include URLs (no "
+              "any mixture, produce an output for every convertible file, none for an unconvertible one and say "
+              "so in their report; a fifth of the runs follow a warm-up run of the same tool in the same process.")
+LEVEL_NOTE = ("1.0 sources are written by the harness' own templates (several values, commas, numbers "
+              "written as numbers, non-text Document attributes, empty child keys, siblings of one name "
+              "included; one value element per value); files carry no repository/include URLs (no "
               "network); FormatConverter promises no isolation: only inputs-untouched, "
               "writes-confined and outputs-load are judged for it.")
 DESIGN_REF = "DESIGN.md 4 (C17)"
